@@ -47,7 +47,7 @@ def assemble_agentshim(scratch, verif):
     shutil.rmtree(shim, ignore_errors=True)
     shutil.copytree(os.path.join(verif, "shim", "stun-rs"), shim)
     with open(os.path.join(ag, "Cargo.toml"), "w") as f:
-        f.write('[package]\nname = "stun-agent"\nversion = "0.0.0"\nedition = "2021"\n\n[dependencies]\nlog = "0.4.21"\nstun-rs = { path = "../shim-stun-rs" }\n\n'
+        f.write('[package]\nname = "stun-agent"\nversion = "0.0.0"\nedition = "2021"\n\n[dependencies]\nlog = "0.4.21"\nstun-rs = { path = "../shim-stun-rs", features = ["attrs"] }\n\n'
                 '[lints.rust]\nunexpected_cfgs = { level = "allow", check-cfg = [\'cfg(kani)\'] }\n\n[workspace]\n')
     agent_src = os.path.join(scratch.src, "stun-agent", "src")
     swaps = 0
